@@ -127,6 +127,10 @@ class LazyLogging(SimpleCodemod, NameAndAncestorResolutionMixin):
             return None
 
         format_strings, format_args, prefixes = self.process_concat(binop)
+        if any('"' in piece or "\n" in piece for piece in format_strings):
+            # The pieces are pasted into a single double-quoted literal: a piece taken from a
+            # single-quoted or triple-quoted literal may contain a double quote or a newline
+            return None
         if len(set(prefixes)) > 1:
             # TODO: handle more complex case of str concat with different prefixes, such as
             # `logging.info("one: " + r"two \\n" + u'three '+  four)`
